@@ -19,6 +19,9 @@ pre   = - | <op>;<op>…         calls on the original before the first `clone(t
 events = - | <side><op>;…      side = o (the original) | c (its first clone) | 2 | 3 | … (later clones, in order of creation)
 op    = s:<v>:<period>:<x,x,…> | d:<v>:<period|*> | k:<v>:<period> | a:<v>:<period> | t:<0|1> | h:<v>
       | g:<v>:<period>                        set_input with an array whose dtype cannot be cast
+      | q:<route>:<ent>:<v>:<period>          <route>(v, period): a calculation through the population a route returns
+      | u:<route>:<ent>:<v>:<period>          <route>.get_holder(v).get_array(period)
+                                              route = g (get_population(plural)) | d (populations[key]) | a (simulation.<key>) | p (simulation.persons)
       | r:<v>:<period>:<side>:<w>:<q>         set_input with the array object <side> holds for (w, q); `none` if it holds none
       | n:<t><d>                              clone this simulation (the answer is the alias graph of parent `o.` and child `c.`)
 period = eternity | <unit>/<y>,<m>,<d>/<size>
@@ -154,9 +157,15 @@ def parseFlags? (s : String) : Option (Bool × Bool) :=
   if s = "00" then some (false, false) else if s = "10" then some (true, false)
   else if s = "01" then some (false, true) else if s = "11" then some (true, true) else none
 
+def parseRoute? (s : String) : Option Route :=
+  if s = "g" then some .getPopulation else if s = "d" then some .populations
+  else if s = "a" then some .shortcut else if s = "p" then some .persons else none
+
 def parseOp? (s : String) : Option Op :=
   match s.splitOn ":" with
   | ["g", v, p] => do pure (.setBad (← v.toNat?) (← hParsePeriod? p))
+  | ["q", r, e, v, p] => do pure (.calcVia (← parseRoute? r) (← e.toNat?) (← v.toNat?) (← hParsePeriod? p))
+  | ["u", r, e, v, p] => do pure (.readVia (← parseRoute? r) (← e.toNat?) (← v.toNat?) (← hParsePeriod? p))
   | ["s", v, p, xs] => do pure (.setInput (← v.toNat?) (← hParsePeriod? p) (← parseInts? xs))
   | ["d", v, p] => do
     let v ← v.toNat?
@@ -205,6 +214,8 @@ def showObs (o : Obs) : String :=
   let pops := (o.pops.mergeSort (fun a b => decide (a.entity ≤ b.entity))).map showPopObs
   s!"d{showB o.debug}o{showB o.optOut}m{o.msl}t{showB o.trace}{showB o.full}[" ++ " ".intercalate (o.roots.map showKey) ++ "]s" ++ toString o.stack.length
     ++ "i[" ++ " ".intercalate (sortStrings (o.inval.map showKey)) ++ "]p" ++ showB o.personsListed
+    ++ "q" ++ showB o.personsRoute
+    ++ ".".intercalate ((o.routes.mergeSort (fun a b => decide (a.1 ≤ b.1))).map (fun e => s!"{e.1}" ++ "".intercalate (e.2.map showB)))
     ++ "{" ++ " ".intercalate pops ++ "}"
 
 def showObsOf (h : Heap) (x : Id) : String :=
@@ -216,6 +227,7 @@ def showRes : Except Err Out → String
   | .ok .done => "ok"
   | .ok (.vec v) => showVec v
   | .ok .zero => "0"
+  | .ok .nothing => "none"
   | .error _ => "ERR"
 
 /-! ### alias graph -/
